@@ -1,6 +1,7 @@
 import Hgxv.Model.Wire
 import Hgxv.Model.C02
 import Hgxv.Model.C02X
+import Hgxv.Model.C02Y
 /-! Line protocol for C02 (see `harness/c02.py`, which produces the same renderings from the real object).
 
 Arguments: node lists `1,2` (`-` empty); metadata `a:v,a:v` (`-` = `{}`, `N` = None); a hyperedge `S>T` with a side
@@ -27,7 +28,13 @@ Arguments: node lists `1,2` (`-` empty); metadata `a:v,a:v` (`-` = `{}`, `N` = N
   getinc <slot> <e> <n> -> metadata | `rej`      (`get_incidence_metadata`)
   allinc <slot> -> `S>T@n=metadata;...` sorted    (`get_all_incidences_metadata`)
   raw <slot>   -> the raw tables (`expose_data_structures`, `get_edge_list`, `get_adj_dict`, `len`, `iter`, `str`,
-      `is_weighted`) IN THEIR ORDER: nothing is sorted here -/
+      `is_weighted`) IN THEIR ORDER: nothing is sorted here
+  rawecho <slot> el|as|at|pop   `set_edge_list(get_edge_list())` / `set_adj_dict(get_adj_dict(x), x)` /
+      `populate_from_dict(expose_data_structures())` through `rawStep` -> `ok` (`noecho` if `RawOp.echo` is false)
+  mapping <slot> -> `classes_` of `get_mapping()` IN ORDER; ` !spec:mapping` when the abstract object's differ
+  indexof <slot> <n> -> code | `rej`; ` !inv` when `inverse_transform` of the code is not `n`
+  `new` also runs the constructor as its public calls (`ctorCalls` through `runOk`) and the argument test `ctorRejArgs`:
+      ` !calls` / ` !rejargs` when they disagree with `ctor` -/
 open Wire C02
 
 /-! ### parsing -/
@@ -295,6 +302,44 @@ def doStep (st : St) (toks : List String) : St × String :=
     match sl.toNat? with
     | some slot => (st, rInc (Full.allInc { base := (AL.get? st.conc slot).getD {}, inc := incOf st slot }))
     | none => (st, "bad-op")
+  | ["rawecho", sl, what] =>
+    match sl.toNat? with
+    | some slot =>
+      match AL.get? st.conc slot with
+      | some s =>
+        let x : Full := { base := s, inc := incOf st slot }
+        let op? : Option RawOp :=
+          if what = "el" then some (.setEL (getEdgeList s))
+          else if what = "as" then some (.setAdj true (getAdjDict s true))
+          else if what = "at" then some (.setAdj false (getAdjDict s false))
+          else if what = "pop" then some (.pop (expose s))
+          else none
+        match op? with
+        | some o =>
+          let y := rawStep x o
+          ({ st with conc := AL.set st.conc slot y.base, inc := AL.set st.inc slot y.inc },
+            (if o.echo x then "ok" else "noecho") ++ (if y == pubRun x (pubOps [o]) then "" else " !pub"))
+        | none => (st, "bad-op")
+      | none => (st, "bad-slot")
+    | none => (st, "bad-op")
+  | ["mapping", sl] =>
+    match sl.toNat? with
+    | some slot =>
+      match AL.get? st.conc slot, AL.get? st.spec slot with
+      | some s, some sp =>
+        (st, joinOr "," "-" ((mapping s).map toString) ++ (if mapping s == sp.mapping then "" else " !spec:mapping"))
+      | _, _ => (st, "bad-slot")
+    | none => (st, "bad-op")
+  | ["indexof", sl, n] =>
+    match sl.toNat?, n.toNat? with
+    | some slot, some nd =>
+      match AL.get? st.conc slot with
+      | some s =>
+        match indexOf? s nd with
+        | some i => (st, toString i ++ (if labelOf? s i == some nd then "" else " !inv"))
+        | none => (st, "rej")
+      | none => (st, "bad-slot")
+    | _, _ => (st, "bad-op")
   | ["raw", sl] =>
     match sl.toNat? with
     | some slot =>
@@ -326,7 +371,16 @@ def doStep (st : St) (toks : List String) : St × String :=
     | some c =>
       let r := step st.conc c
       let q := Spec.step st.spec c
+      let extra : String :=
+        match c with
+        | .new slot w hm nm es ws mds =>
+          let viaCalls := runOk (ctorInit w hm) (ctorCalls nm es ws mds)
+          let obj := ctor w hm nm es ws mds
+          (if (obj.2 == .ok) == viaCalls.isSome && (obj.2 == .rej || viaCalls == some obj.1) &&
+              (obj.2 == .rej || AL.get? r.1 slot == viaCalls) then "" else " !calls") ++
+          (if (obj.2 == .rej) == ctorRejArgs es ws mds then "" else " !rejargs")
+        | _ => ""
       ({ conc := r.1, spec := q.1, inc := incAfter st c (r.2 == .ok) },
-        showOut r.2 ++ (if r.2 == q.2 then "" else " !spec:out"))
+        showOut r.2 ++ (if r.2 == q.2 then "" else " !spec:out") ++ extra)
 
 def main : IO Unit := Wire.run doStep {}
